@@ -229,6 +229,31 @@ def bounded_native(ck, model=None):
                               "input": {"beta_deg": beta_deg, "alt": alt, "E": E, "tops": [t1, t2]}, "observed": [float(g1[0]), float(g2[0])]})
             if not (float(g1[0]) <= float(ref[0]) * (1 + 1e-6)):
                 fails.append({"obligation": "bounded.kernel.between", "clause": "removing light cannot increase the density", "input": {"beta_deg": beta_deg, "alt": alt, "E": E, "cloud_top": t1}, "observed": [float(g1[0]), float(ref[0])]})
+    # the batch path hands every event's own latitude and longitude, in that order, to the cloud model (a model that is not symmetric in them)
+    import contextlib
+    import io
+
+    import dask
+
+    def skew_cloud(lat, long):
+        return 7.5 if (lat - 0.4 * long) > 0.1 else -np.inf
+
+    kb = CphotAng(525.0)
+    m_ = 8
+    bb_, aa_, ee_ = np.radians(rng.uniform(2.0, 35.0, m_)), rng.uniform(0.5, 6.0, m_), 10 ** rng.uniform(-1, 1, m_)
+    la_, lo_ = rng.uniform(-1.2, 1.2, m_), rng.uniform(-3.0, 3.0, m_)
+    with np.errstate(all="ignore"), contextlib.redirect_stdout(io.StringIO()), dask.config.set(scheduler="synchronous"):
+        one = [CphotAng(525.0).run(bb_[j], aa_[j], ee_[j], la_[j], lo_[j], skew_cloud) for j in range(m_)]
+        try:
+            d_, a_ = kb(bb_.copy(), aa_.copy(), ee_.copy(), la_.copy(), lo_.copy(), skew_cloud)
+            same_ = np.array_equal(np.asarray(d_), np.asarray([r[0] for r in one]), equal_nan=True) and np.array_equal(np.asarray(a_), np.array([r[1] for r in one]), equal_nan=True)
+            obs_ = {"batch": np.asarray(d_, float)[:4].tolist(), "one-at-a-time": [float(r[0]) for r in one][:4]}
+        except Exception as ex:
+            same_, obs_ = False, "raised %r" % ex
+    n += m_
+    if not same_:
+        fails.append({"obligation": "bounded.kernel.batch_location", "clause": "in a batch every event is evaluated under the cloud top of its own (latitude, longitude), as in a single-event call",
+                      "input": {"events": m_, "cloud model": "7.5 km where lat - 0.4 long > 0.1, none elsewhere", "seed": ck.seed}, "observed": obs_})
     # cloud tops between the same two step altitudes (doubles that single precision cannot tell from the step) must give identical results
     from contracts import C06 as _C06
 
